@@ -45,7 +45,7 @@ def evaluate(name, tier, seeds):
             t0 = time.time()
             r = subprocess.run([os.path.join(ROOT, "check"), c, "--tier", tier], env=env, stdout=subprocess.PIPE,
                                stderr=subprocess.STDOUT, text=True, errors="replace")
-            legs = sorted(set(re.findall(r"replay=\S*/(Test\w+|Fuzz\w+)", r.stdout)))
+            legs = sorted(set(re.findall(r"replay=\S*/(Test\w+|Fuzz\w+|regr\.\w+)", r.stdout)))
             msg = ""
             m = re.search(r"\[rapid\] failed after[^\n]*\n?", r.stdout)
             if m:
